@@ -70,8 +70,10 @@ def norm_vcf(path, node_dir):
             lines = f.read().split("\n")
     elif head[:2] == b"\x1f\x8b":
         try:
-            with gzip.open(path, "rt", errors="replace") as f:
-                lines = f.read().split("\n")
+            with gzip.open(path, "rb") as f:
+                raw = f.read()
+            # a BCF file is BGZF-compressed binary: leave it to htslib
+            lines = None if raw[:3] == b"BCF" else raw.decode("utf-8", "replace").split("\n")
         except Exception:
             lines = None
     if lines is None:
